@@ -566,6 +566,18 @@ func (w *World) settle() error {
 	// 1. all store events of all writes have reached their forwarders
 	for _, f := range fs {
 		if err := f.waitCaughtUp(); err != nil {
+			if f.h != nil {
+				// An event the store owed a northbound handler's own watch did not arrive: that is an observation
+				// about the store (the handler may wait for ever), not a failure of the harness.
+				f.h.mu.Lock()
+				f.h.starved = true
+				f.h.mu.Unlock()
+				f.mu.Lock()
+				f.expect = map[writeKey]bool{}
+				f.gone = false
+				f.mu.Unlock()
+				continue
+			}
 			return err
 		}
 	}
@@ -604,7 +616,14 @@ func (w *World) settle() error {
 	return nil
 }
 
+// HandlerEventTimeout bounds the wait for an event on a northbound handler's own watch.
+var HandlerEventTimeout = 8 * time.Second
+
 func (f *forwarder) waitCaughtUp() error {
+	timeout := InfraTimeout
+	if f.h != nil {
+		timeout = HandlerEventTimeout
+	}
 	done := make(chan struct{})
 	go func() {
 		f.mu.Lock()
@@ -617,7 +636,7 @@ func (f *forwarder) waitCaughtUp() error {
 	select {
 	case <-done:
 		return nil
-	case <-time.After(InfraTimeout):
+	case <-time.After(timeout):
 		f.mu.Lock()
 		defer f.mu.Unlock()
 		f.gone = true // let the waiter goroutine end
